@@ -9,7 +9,7 @@ use serde_json::{json, Value};
 pub const DEF: PropDef = PropDef {
     id: "C01",
     level: "exploration",
-    rule: "complete enumeration of (1) all strings over a 28-symbol alphabet with one representative per lexer branch, (2) all space-joined sequences over an 83-lexeme alphabet covering every token type, (3) the full single-edit (and, thorough, bounded double-edit) lexeme neighbourhood of a corpus of valid programs, (4) a fixed nesting-depth family with runs of 1000 / 30 000 / 200 000 repetitions of 20 ignorable or repeatable units (comments, blank lines, punctuation, statements, list elements) alone and inside statements, (5) 41 Unicode class representatives (non-ASCII white space and look-alikes, non-ASCII digits and numerals, letters whose case mappings change length, title-case and caseless letters, combining marks, joiners, astral characters, typographic quotes) alone and in all pairs in 20 lexical positions, (6) tokens of every byte length 0..140 and around 256 / 1024 / 4096 / 65536 with a multi-byte tail (2-, 3-, 4-byte characters) in 10 token kinds an error message can quote; each text is parsed in the checked and in the release build; non-trivial = the text lexes to at least 2 tokens or contains an error token; distinct = distinct text",
+    rule: "complete enumeration of (1) all strings over a 28-symbol alphabet with one representative per lexer branch, all strings of length <=3 over every printable ASCII character plus tab / CR / LF, all strings of length 4 (thorough 5) over ASCII punctuation and blanks, (2) all space-joined sequences over an 83-lexeme alphabet covering every token type, (3) the full single-edit (and, thorough, bounded double-edit) lexeme neighbourhood of a corpus of valid programs, (4) a fixed nesting-depth family with runs of 1000 / 30 000 / 200 000 repetitions of 20 ignorable or repeatable units (comments, blank lines, punctuation, statements, list elements) alone and inside statements, (5) 41 Unicode class representatives (non-ASCII white space and look-alikes, non-ASCII digits and numerals, letters whose case mappings change length, title-case and caseless letters, combining marks, joiners, astral characters, typographic quotes) alone and in all pairs in 20 lexical positions, (6) tokens of every byte length 0..140 and around 256 / 1024 / 4096 / 65536 with a multi-byte tail (2-, 3-, 4-byte characters) in 10 token kinds an error message can quote; each text is parsed in the checked and in the release build; non-trivial = the text lexes to at least 2 tokens or contains an error token; distinct = distinct text",
     assumptions: &[
         "the checked build (debug-assertions, overflow-checks) turns every violated unsafe precondition of rrss into a panic; release-only misbehaviour is observed through the differential of the rendered result",
         "hang = a single parse burning more than 10 s of CPU", "the checked build is opt-level 1 with debug assertions and overflow checks; the depth family additionally runs through the unoptimised debug build of the rrss binary (rrss lint FILE: parse + lint passes), where recursion that an optimiser would turn into a loop still consumes stack",
@@ -201,6 +201,15 @@ fn build(tier: Tier) -> Box<dyn Check> {
         base.seq_range(1, tier.pick(3, 4)).map(|v| lexemes::join(&v))
     };
     drop(lex);
+    // every printable ASCII character (and tab, CR, LF), not only one representative per lexer branch:
+    // a special case for one character (a shebang, an escape, a sigil) is a new branch
+    let ascii: Vec<String> = (0x20u8..0x7f).map(|b| (b as char).to_string()).chain(["\n", "\t", "\r"].iter().map(|s| s.to_string())).collect();
+    let ascii_refs: Vec<&'static str> = ascii.iter().map(|s| &*Box::leak(s.clone().into_boxed_str())).collect();
+    let ascii_leaked: &'static [&'static str] = Box::leak(ascii_refs.into_boxed_slice());
+    let ascii3 = strings(ascii_leaked, 0, 3);
+    let punct: Vec<&'static str> = ascii_leaked.iter().copied().filter(|s| !s.chars().all(|c| c.is_ascii_alphanumeric())).collect();
+    let punct_leaked: &'static [&'static str] = Box::leak(punct.into_boxed_slice());
+    let punct4 = strings(punct_leaked, 4, tier.pick(4, 5));
     let corpus: Vec<String> = corpus::VALID.iter().map(|s| s.to_string()).collect();
     let edits1 = edit_space(corpus.clone());
     let short: Vec<String> = corpus.iter().filter(|p| lexemes::split(p).len() <= 12).take(tier.pick(3, 12)).cloned().collect();
@@ -212,6 +221,8 @@ fn build(tier: Tier) -> Box<dyn Check> {
         fams: vec![
             ("recorded-finding-probe".into(), Space::of(vec![deep_nesting_probe()])),
             ("chars".into(), chars),
+            ("all-ascii <=3".into(), ascii3),
+            ("ascii-punctuation 4".into(), punct4),
             ("lexemes".into(), lexs),
             ("edit1".into(), edits1),
             ("edit2".into(), edits2),
